@@ -315,28 +315,33 @@ def tz_model(ctx, rule):
     build_tz_offsets produces them; the function's shape is conformance-checked"""
     ix = ctx.ix
     f = ix.func("dateparser.timezone_parser:build_tz_offsets")
-    loops = [n for n in iter_own_nodes(f.node) if isinstance(n, ast.For)]
-    its = [ast.unparse(l.iter) for l in loops]
-    want = ["timezone_info_list", "tz_info['regex_patterns']", "tz_info['timezones']", "tz_info.get('replace', [])"]
-    if its != want:
-        raise AnalysisError(rule, "build_tz_offsets loop nest changed: %s" % its)
-    nest_ok = loops[1] in loops[0].body and loops[2] in loops[1].body and loops[3] in loops[2].body
-    if not nest_ok:
-        raise AnalysisError(rule, "build_tz_offsets loops are no longer nested patterns > timezones > replace")
-    body2 = [ast.unparse(s) for s in loops[2].body if not isinstance(s, ast.For)]
-    body3 = [ast.unparse(s) for s in loops[3].body]
-    if body2 != ["search_regex_parts.append(tz_obj[0])", "yield get_offset(tz_obj, regex)"]:
-        raise AnalysisError(rule, "build_tz_offsets primary yield changed: %s" % body2)
-    if body3 != ["search_regex_parts.append(re.sub(replace, replacewith, tz_obj[0]))",
-                 "yield get_offset(tz_obj, regex, repl=replace, replw=replacewith)"]:
-        raise AnalysisError(rule, "build_tz_offsets alternate yield changed: %s" % body3)
-    go = f.children.get("get_offset")
-    rets = [n for n in iter_own_nodes(go.node) if isinstance(n, ast.Return)] if go else []
-    if len(rets) != 1 or " ".join(ast.unparse(rets[0].value).split()) != \
-            "(tz_obj[0], {'regex': re.compile(re.sub(repl, replw, regex % tz_obj[0]), re.IGNORECASE), 'offset': timedelta(seconds=tz_obj[1])})":
-        raise AnalysisError(rule, "get_offset changed: %s" % (ast.unparse(rets[0].value) if rets else None))
-    if [ast.unparse(d) for d in go.node.args.defaults] != ["''", "''"]:
-        raise AnalysisError(rule, "get_offset defaults changed")
+    ref = '''
+def build_tz_offsets(search_regex_parts):
+    def get_offset(tz_obj, regex, repl="", replw=""):
+        return (
+            tz_obj[0],
+            {
+                "regex": re.compile(
+                    re.sub(repl, replw, regex % tz_obj[0]), re.IGNORECASE
+                ),
+                "offset": timedelta(seconds=tz_obj[1]),
+            },
+        )
+
+    for tz_info in timezone_info_list:
+        for regex in tz_info["regex_patterns"]:
+            for tz_obj in tz_info["timezones"]:
+                search_regex_parts.append(tz_obj[0])
+                yield get_offset(tz_obj, regex)
+
+                # alternate patterns
+                for replace, replacewith in tz_info.get("replace", []):
+                    search_regex_parts.append(re.sub(replace, replacewith, tz_obj[0]))
+                    yield get_offset(tz_obj, regex, repl=replace, replw=replacewith)
+'''
+    if _norm_fingerprint(f.node) != _norm_fingerprint(ast.parse(ref).body[0]):
+        raise AnalysisError(rule, "build_tz_offsets no longer has the modelled shape (three nested loops, one yield per "
+                                  "(pattern, zone) plus one per replace pair, each preceded by the append of the same name)")
     tl = module_literal(ctx.repo, "dateparser/timezones.py", "timezone_info_list")
     entries, parts = [], []
     for info in tl:
@@ -425,10 +430,11 @@ def r2(ctx, chk):
                key={"construct": "search regex " + label}, file=rel, function="-", line=None)
     # _load_offsets builds the two regexes from the same parts list
     lo = ctx.ix.func("dateparser.timezone_parser:_load_offsets")
-    t = ast.unparse(lo.node)
-    ok = "_search_regex = re.compile('|'.join(_search_regex_parts))" in t and \
-        "_search_regex_ignorecase = re.compile('|'.join(_search_regex_parts), re.IGNORECASE)" in t and \
-        "_tz_offsets = list(build_tz_offsets(_search_regex_parts))" in t
+    t = " ".join(ast.unparse(lo.node).split())
+    import re as _re
+    m_ = _re.search(r"_tz_offsets = list\(build_tz_offsets\((\w+)\)\)", t)
+    ok = bool(m_) and ("_search_regex = re.compile('|'.join(%s))" % m_.group(1)) in t and \
+        ("_search_regex_ignorecase = re.compile('|'.join(%s), re.IGNORECASE)" % m_.group(1)) in t
     if not ok:
         raise AnalysisError(rule, "_load_offsets rebuild statements changed")
     chk.sample({"rule": rule, "entries": len(entries), "pickle_protocol": proto, "opcodes": nops, "hash": want_h,
